@@ -7,6 +7,8 @@ import (
 	"fmt"
 	"os"
 	"path/filepath"
+	"runtime/debug"
+	"runtime/pprof"
 	"strconv"
 	"strings"
 	"time"
@@ -68,12 +70,22 @@ func main() {
 	trace := flag.Bool("trace", false, "trace instructions")
 	verbose := flag.Bool("v", false, "verbose")
 	tags := flag.String("tags", "verif", "build tags")
+	cpuprofile := flag.String("cpuprofile", "", "write a CPU profile")
 	sampleEvery := flag.Int("sample-every", 0, "record every n-th path as an evidence sample")
 	flag.Var(&ov, "overlay", "virtual=real file mapping (repeatable)")
 	flag.Var(&params, "param", "name=int harness parameter (repeatable)")
 	flag.Var(&pats, "pattern", "package pattern to load (repeatable)")
 	flag.Parse()
+	// the loaded SSA of the repository and its dependencies is a large, long-lived heap;
+	// collect rarely (bounded by a soft memory limit)
+	debug.SetGCPercent(800)
+	debug.SetMemoryLimit(10 << 30)
 
+	if *cpuprofile != "" {
+		f, _ := os.Create(*cpuprofile)
+		pprof.StartCPUProfile(f)
+		defer pprof.StopCPUProfile()
+	}
 	overlay := map[string][]byte{}
 	for _, o := range ov {
 		kv := strings.SplitN(o, "=", 2)
@@ -120,7 +132,7 @@ func main() {
 		Harness: *harness, Params: pm, Paths: res.Paths, Assumed: res.Assumed, Decisions: res.Decisions,
 		Forced: res.Forced, Asserts: res.Asserts, Violations: res.Violations, Inconclusive: res.Inconclusive,
 		Samples: res.Samples, Queries: map[string]int{"sat": res.Sat, "unsat": res.Unsat, "unknown": res.Unknown, "total": res.Queries,
-			"valueset_sat": res.DomSat, "valueset_unsat": res.DomUnsat, "model_cache_sat": res.CacheSat},
+			"valueset_sat": res.DomSat, "valueset_unsat": res.DomUnsat, "model_cache_sat": res.CacheSat, "fast_answers_cross_checked_with_z3": res.CrossChecked},
 		SolverTimeS: res.SolverTime.Seconds(), WallS: res.Wall.Seconds(), LoadS: loadS,
 		Functions: eng.FunctionsEncoded(), Externs: eng.ExternsUsed(), Natives: eng.NativesUsed(), Inits: eng.InitsRun(),
 		Reached: eng.Reached(), MapRanges: res.MapRanges, MaxTrace: res.MaxTrace, Steps: res.Steps, Solver: *solver,
@@ -143,6 +155,7 @@ func main() {
 	}
 	fmt.Fprintf(os.Stderr, "gosym %s: paths=%d assumed=%d violations=%d inconclusive=%d queries=%d wall=%.1fs (load %.1fs)\n",
 		*harness, res.Paths, res.Assumed, len(res.Violations), len(res.Inconclusive), res.Queries, res.Wall.Seconds(), loadS)
+	pprof.StopCPUProfile()
 	if len(res.Inconclusive) > 0 {
 		for _, s := range res.Inconclusive {
 			fmt.Fprintln(os.Stderr, "  inconclusive:", s)
